@@ -357,6 +357,15 @@ def gen_case(rng):
         n = rng.randint(2, 4)
         kind = rng.choice(['series', 'frameN'])
         operands = [gen_operand(rng, kind, names_pool) for _ in range(n)]
+        if rng.random() < 0.35:
+            # all operands already on one index (nothing to align): the aggregate must still not touch them
+            ts0 = operands[0]['ts']
+            for o in operands[1:]:
+                o['ts'] = list(ts0)
+                if o['k'] == 'series':
+                    o['v'] = [rng.choice(VALS) for _ in ts0]
+                else:
+                    o['cols'] = [[rng.choice(VALS) for _ in ts0] for _ in o['cols']]
         if kind == 'frameN' and same_cols:
             k = len(operands[0]['names'])
             for o in operands:
